@@ -7,9 +7,9 @@
 //                        of the little-endian words; KeyInit::new(key) == zero tweak.  All keys, all tweaks.
 //   tfN_enc / tfN_dec    W: encrypt_block_u64 / decrypt_block_u64 == oracle on an ARBITRARY subkey table (superset of
 //                        all keys and tweaks), all blocks; mix / inv_mix uninterpreted, shared with the oracle
-//   tfN_bytes_enc/_dec   W: encrypt_block / decrypt_block (byte entry points of the cipher traits) == the u64 entry
+//   tfN_bytes            W: encrypt_block / decrypt_block (byte entry points of the cipher traits) == the u64 entry
 //                        points under little-endian encoding
-//   tfN_rt_ed / _rt_de   W: decrypt_block_u64(encrypt_block_u64(b)) == b and the converse, arbitrary subkey table
+//   tfN_rt               W: decrypt_block_u64(encrypt_block_u64(b)) == b and the converse, arbitrary subkey table
 //   tfN_rt_bytes         W: decrypt_block(encrypt_block(b)) == b through the byte entry points
 //
 // Uninterpreted mix / inv_mix with match hints (module ufm).  Every W query runs two passes with the same number of
@@ -26,124 +26,71 @@ use crate::{Threefish1024, Threefish256, Threefish512};
 use cipher::{BlockCipherDecrypt, BlockCipherEncrypt, KeyInit};
 use refmodels::threefish as r;
 
-// Log storage: banks of 64 entries in one-dimensional statics (CBMC keeps arrays of <= 64 elements field-sensitive,
-// so a write touches one scalar; nested or larger arrays are copied wholesale on every write).
+// One log per block size, as nested static arrays with every dimension <= 64 and constant indices (measured: cheapest
+// representation -- one-dimensional banks and individual scalar statics both cost several times more SAT variables).
 #[cfg(kani)]
-macro_rules! ufm_banks {
-    ($(($idx:expr, $bank:ident))+) => {
-        $(
-            pub mod $bank {
-                pub static mut R: [u8; 64] = [0; 64];
-                pub static mut A0: [u64; 64] = [0; 64];
-                pub static mut A1: [u64; 64] = [0; 64];
-                pub static mut B0: [u64; 64] = [0; 64];
-                pub static mut B1: [u64; 64] = [0; 64];
-            }
-        )+
-        /// entry e := (r, a, b)
-        pub unsafe fn put(e: usize, r: u8, a: (u64, u64), b: (u64, u64)) {
-            unsafe {
-                let l = e % 64;
-                match e / 64 {
-                    $(
-                        $idx => {
-                            $bank::R[l] = r;
-                            $bank::A0[l] = a.0;
-                            $bank::A1[l] = a.1;
-                            $bank::B0[l] = b.0;
-                            $bank::B1[l] = b.1;
-                        }
-                    )+
-                    _ => kani::assert(false, "VERIF_UF_CAPACITY"),
+macro_rules! ufm_log {
+    ($m:ident, $cap:expr, $d0:expr, $d1:expr, $d2:expr) => {
+        pub mod $m {
+            pub static mut R: [[[u8; $d2]; $d1]; $d0] = [[[0; $d2]; $d1]; $d0];
+            pub static mut A0: [[[u64; $d2]; $d1]; $d0] = [[[0; $d2]; $d1]; $d0];
+            pub static mut A1: [[[u64; $d2]; $d1]; $d0] = [[[0; $d2]; $d1]; $d0];
+            pub static mut B0: [[[u64; $d2]; $d1]; $d0] = [[[0; $d2]; $d1]; $d0];
+            pub static mut B1: [[[u64; $d2]; $d1]; $d0] = [[[0; $d2]; $d1]; $d0];
+            pub static mut N: usize = 0;
+            pub static mut HALF: usize = 0;
+            pub static mut NPAIR: usize = 1;
+            pub static mut REV: bool = false;
+            /// nr rounds, npair MIX per round; rev: pass 2 walks the rounds backwards (round trips)
+            pub fn setup(nr: usize, npair: usize, rev: bool) {
+                unsafe {
+                    N = 0;
+                    HALF = nr * npair;
+                    NPAIR = npair;
+                    REV = rev;
                 }
             }
-        }
-        pub unsafe fn get(e: usize) -> (u8, (u64, u64), (u64, u64)) {
-            unsafe {
-                let l = e % 64;
-                match e / 64 {
-                    $(
-                        $idx => ($bank::R[l], ($bank::A0[l], $bank::A1[l]), ($bank::B0[l], $bank::B1[l])),
-                    )+
-                    _ => {
-                        kani::assert(false, "VERIF_UF_CAPACITY");
-                        (0, (0, 0), (0, 0))
+            pub fn call(fwd: bool, r: u8, x: (u64, u64)) -> (u64, u64) {
+                unsafe {
+                    let y: (u64, u64) = (kani::any(), kani::any());
+                    let k = N;
+                    kani::assert(HALF <= $cap && k < 2 * HALF, "VERIF_UF_CAPACITY");
+                    if k < HALF {
+                        let (i, j, l) = (k / ($d1 * $d2), (k / $d2) % $d1, k % $d2);
+                        let (a, b) = if fwd { (x, y) } else { (y, x) };
+                        R[i][j][l] = r;
+                        A0[i][j][l] = a.0;
+                        A1[i][j][l] = a.1;
+                        B0[i][j][l] = b.0;
+                        B1[i][j][l] = b.1;
+                    } else {
+                        let m = k - HALF;
+                        let e = if REV { (HALF / NPAIR - 1 - m / NPAIR) * NPAIR + m % NPAIR } else { m };
+                        let (i, j, l) = (e / ($d1 * $d2), (e / $d2) % $d1, e % $d2);
+                        if R[i][j][l] == r {
+                            let a = (A0[i][j][l], A1[i][j][l]);
+                            let b = (B0[i][j][l], B1[i][j][l]);
+                            if fwd {
+                                kani::assume(!((a.0 == x.0) & (a.1 == x.1)) | ((b.0 == y.0) & (b.1 == y.1)));
+                            } else {
+                                kani::assume(!((b.0 == x.0) & (b.1 == x.1)) | ((a.0 == y.0) & (a.1 == y.1)));
+                            }
+                        }
                     }
+                    N = k + 1;
+                    y
                 }
             }
         }
     };
 }
+// 144 = 72 x 2, 288 = 72 x 4, 640 = 80 x 8 MIX calls per pass
 #[cfg(kani)]
-pub mod ufm {
-    // 10 banks = 640 entries = 80 rounds x 8 MIX (Threefish-1024)
-    ufm_banks!((0, K0)(1, K1)(2, K2)(3, K3)(4, K4)(5, K5)(6, K6)(7, K7)(8, K8)(9, K9));
-    pub static mut N: usize = 0;
-    pub static mut HALF: usize = 0;
-    pub static mut NPAIR: usize = 1;
-    pub static mut REV: bool = false;
-
-    /// nr rounds, npair MIX per round; rev: pass 2 walks the rounds backwards (round trips)
-    pub fn setup(nr: usize, npair: usize, rev: bool) {
-        unsafe {
-            N = 0;
-            HALF = nr * npair;
-            NPAIR = npair;
-            REV = rev;
-        }
-    }
-    pub fn call(fwd: bool, r: u8, x: (u64, u64)) -> (u64, u64) {
-        unsafe {
-            let y: (u64, u64) = (kani::any(), kani::any());
-            let k = N;
-            kani::assert(HALF <= 640 && k < 2 * HALF, "VERIF_UF_CAPACITY");
-            if k < HALF {
-                if fwd {
-                    put(k, r, x, y);
-                } else {
-                    put(k, r, y, x);
-                }
-            } else {
-                let m = k - HALF;
-                let e = if REV { (HALF / NPAIR - 1 - m / NPAIR) * NPAIR + m % NPAIR } else { m };
-                let (re, a, b) = get(e);
-                if re == r {
-                    if fwd {
-                        kani::assume(!((a.0 == x.0) & (a.1 == x.1)) | ((b.0 == y.0) & (b.1 == y.1)));
-                    } else {
-                        kani::assume(!((b.0 == x.0) & (b.1 == x.1)) | ((a.0 == y.0) & (a.1 == y.1)));
-                    }
-                }
-            }
-            N = k + 1;
-            y
-        }
-    }
-}
+ufm_log!(ufm256, 144, 3, 6, 8);
 #[cfg(kani)]
-fn uf_setup(nw: usize, rev: bool) {
-    ufm::setup(r::rounds(nw), nw / 2, rev)
-}
-#[cfg(not(kani))]
-fn uf_setup(_nw: usize, _rev: bool) {}
-
+ufm_log!(ufm512, 288, 6, 6, 8);
 #[cfg(kani)]
-pub fn stub_mix(r: u8, x: (u64, u64)) -> (u64, u64) {
-    ufm::call(true, r, x)
-}
-#[cfg(kani)]
-pub fn stub_inv_mix(r: u8, y: (u64, u64)) -> (u64, u64) {
-    ufm::call(false, r, y)
-}
-// native replay: the oracle's own leaves (the implementation keeps its real ones, #[kani::stub] is inert)
-#[cfg(not(kani))]
-pub fn stub_mix(rot: u8, x: (u64, u64)) -> (u64, u64) {
-    r::mix(rot, x)
-}
-#[cfg(not(kani))]
-pub fn stub_inv_mix(rot: u8, y: (u64, u64)) -> (u64, u64) {
-    r::inv_mix(rot, y)
-}
+ufm_log!(ufm1024, 640, 10, 8, 8);
 
 //@ harness name=threefish_leaf_mix prop=C10,C01,C20 tier=quick bits=136 est=60 desc="L: crate::mix(r, x) == MIX and crate::inv_mix(r, y) == MIX^-1 of Skein 1.3 for every r: u8 and every 128-bit argument; inv_mix(r, mix(r, x)) == x and mix(r, inv_mix(r, y)) == y"
 verif_harness! {
@@ -162,11 +109,35 @@ verif_harness! {
 }
 
 macro_rules! tf_inst {
-    ($m:ident, $name:ident, nw = $nw:expr, ns = $ns:expr) => {
+    ($m:ident, $name:ident, nw = $nw:expr, ns = $ns:expr, log = $log:ident) => {
         pub mod $m {
             use super::*;
             pub const NW: usize = $nw;
             pub const NS: usize = $ns;
+
+            #[cfg(kani)]
+            fn uf_setup(nw: usize, rev: bool) {
+                $log::setup(r::rounds(nw), nw / 2, rev)
+            }
+            #[cfg(not(kani))]
+            fn uf_setup(_nw: usize, _rev: bool) {}
+            #[cfg(kani)]
+            pub fn stub_mix(r: u8, x: (u64, u64)) -> (u64, u64) {
+                $log::call(true, r, x)
+            }
+            #[cfg(kani)]
+            pub fn stub_inv_mix(r: u8, y: (u64, u64)) -> (u64, u64) {
+                $log::call(false, r, y)
+            }
+            // native replay: the oracle's own leaves (the implementation keeps its real ones, #[kani::stub] is inert)
+            #[cfg(not(kani))]
+            pub fn stub_mix(rot: u8, x: (u64, u64)) -> (u64, u64) {
+                r::mix(rot, x)
+            }
+            #[cfg(not(kani))]
+            pub fn stub_inv_mix(rot: u8, y: (u64, u64)) -> (u64, u64) {
+                r::inv_mix(rot, y)
+            }
 
             fn same_sk(a: &[[u64; NW]; NS], b: &[[u64; NW]; NS]) -> bool {
                 let mut ok = true;
@@ -296,6 +267,14 @@ macro_rules! tf_inst {
                 c.encrypt_block_u64(&mut b);
                 Some(same_w(&b, &p))
             }
+            pub fn bytes(inp: &[u8]) -> Option<bool> {
+                vcheck!(bytes_enc(inp) == Some(true));
+                bytes_dec(inp)
+            }
+            pub fn rt(inp: &[u8]) -> Option<bool> {
+                vcheck!(rt_ed(inp) == Some(true));
+                rt_de(inp)
+            }
             pub fn rt_bytes(inp: &[u8]) -> Option<bool> {
                 uf_setup(NW, true);
                 let (c, _sk) = arb(inp);
@@ -315,11 +294,11 @@ macro_rules! tf_inst {
     };
 }
 
-tf_inst!(t256, Threefish256, nw = 4, ns = 19);
-tf_inst!(t512, Threefish512, nw = 8, ns = 19);
-tf_inst!(t1024, Threefish1024, nw = 16, ns = 21);
+tf_inst!(t256, Threefish256, nw = 4, ns = 19, log = ufm256);
+tf_inst!(t512, Threefish512, nw = 8, ns = 19, log = ufm512);
+tf_inst!(t1024, Threefish1024, nw = 16, ns = 21, log = ufm1024);
 
-// ------------------------------------------------------------------ Threefish-256 (sk: 608 bytes, block 32 bytes)
+// ------------------------------------------------------------------ Threefish-256 (subkey table 608 bytes, block 32 bytes)
 
 //@ harness name=tf256_ks prop=C10,C20 tier=quick bits=384 est=60 desc="D: Threefish256 new_with_tweak_u64 == Skein 1.3 key schedule (C240, t2 = t0^t1, 19 subkeys); new_with_tweak(bytes) == same on LE words; KeyInit::new == zero tweak; all keys and tweaks"
 verif_harness! {
@@ -328,191 +307,144 @@ verif_harness! {
     unwind: 140,
     prop: |inp| { t256::ks(inp) }
 }
-//@ harness name=tf256_enc prop=C10,C20 tier=quick bits=5120 stub=1 est=60 desc="W: Threefish256::encrypt_block_u64 == oracle (72 rounds, subkey every 4 rounds, permutation pi, rotation table) on an arbitrary subkey table, all blocks; mix uninterpreted"
+//@ harness name=tf256_enc prop=C10,C20 tier=quick bits=5120 stub=1 est=120 desc="W: Threefish256::encrypt_block_u64 == oracle (72 rounds, subkey every 4 rounds, permutation pi, rotation table) on an ARBITRARY subkey table, all blocks; mix uninterpreted"
 verif_harness! {
     name: tf256_enc,
     bytes: 640,
     unwind: 140,
-    stubs: [(crate::mix, stub_mix), (crate::inv_mix, stub_inv_mix)],
+    stubs: [(crate::mix, t256::stub_mix), (crate::inv_mix, t256::stub_inv_mix)],
     prop: |inp| { t256::enc(inp) }
 }
-//@ harness name=tf256_dec prop=C10,C20 tier=quick bits=5120 stub=1 est=60 desc="W: Threefish256::decrypt_block_u64 == oracle decryption on an arbitrary subkey table, all blocks; inv_mix uninterpreted"
+//@ harness name=tf256_dec prop=C10,C20 tier=quick bits=5120 stub=1 est=120 desc="W: Threefish256::decrypt_block_u64 == oracle decryption on an ARBITRARY subkey table, all blocks; inv_mix uninterpreted"
 verif_harness! {
     name: tf256_dec,
     bytes: 640,
     unwind: 140,
-    stubs: [(crate::mix, stub_mix), (crate::inv_mix, stub_inv_mix)],
+    stubs: [(crate::mix, t256::stub_mix), (crate::inv_mix, t256::stub_inv_mix)],
     prop: |inp| { t256::dec(inp) }
 }
-//@ harness name=tf256_bytes_enc prop=C10,C20 tier=quick bits=5120 stub=1 est=60 desc="W: Threefish256 encrypt_block (bytes) == LE(encrypt_block_u64(LE words)), arbitrary subkey table, all blocks"
+//@ harness name=tf256_bytes prop=C10,C20 tier=quick bits=5120 stub=1 est=120 desc="W: Threefish256 encrypt_block / decrypt_block (byte entry points) == LE(encrypt_block_u64 / decrypt_block_u64(LE words)), ARBITRARY subkey table, all blocks"
 verif_harness! {
-    name: tf256_bytes_enc,
+    name: tf256_bytes,
     bytes: 640,
     unwind: 140,
-    stubs: [(crate::mix, stub_mix), (crate::inv_mix, stub_inv_mix)],
-    prop: |inp| { t256::bytes_enc(inp) }
+    stubs: [(crate::mix, t256::stub_mix), (crate::inv_mix, t256::stub_inv_mix)],
+    prop: |inp| { t256::bytes(inp) }
 }
-//@ harness name=tf256_bytes_dec prop=C10,C20 tier=quick bits=5120 stub=1 est=60 desc="W: Threefish256 decrypt_block (bytes) == LE(decrypt_block_u64(LE words)), arbitrary subkey table, all blocks"
+//@ harness name=tf256_rt prop=C01,C20 tier=quick bits=5120 stub=1 est=120 desc="W: Threefish256 decrypt_block_u64(encrypt_block_u64(b)) == b and encrypt_block_u64(decrypt_block_u64(b)) == b on an ARBITRARY subkey table (any key, any tweak), all blocks; mix / inv_mix uninterpreted mutual inverses (leaf lemma)"
 verif_harness! {
-    name: tf256_bytes_dec,
+    name: tf256_rt,
     bytes: 640,
     unwind: 140,
-    stubs: [(crate::mix, stub_mix), (crate::inv_mix, stub_inv_mix)],
-    prop: |inp| { t256::bytes_dec(inp) }
+    stubs: [(crate::mix, t256::stub_mix), (crate::inv_mix, t256::stub_inv_mix)],
+    prop: |inp| { t256::rt(inp) }
 }
-//@ harness name=tf256_rt_ed prop=C01,C20 tier=quick bits=5120 stub=1 est=60 desc="W: Threefish256 decrypt_block_u64(encrypt_block_u64(b)) == b on an arbitrary subkey table (any key, any tweak), all blocks; mix/inv_mix an uninterpreted keyed bijection"
-verif_harness! {
-    name: tf256_rt_ed,
-    bytes: 640,
-    unwind: 140,
-    stubs: [(crate::mix, stub_mix), (crate::inv_mix, stub_inv_mix)],
-    prop: |inp| { t256::rt_ed(inp) }
-}
-//@ harness name=tf256_rt_de prop=C01,C20 tier=quick bits=5120 stub=1 est=60 desc="W: Threefish256 encrypt_block_u64(decrypt_block_u64(b)) == b on an arbitrary subkey table, all blocks"
-verif_harness! {
-    name: tf256_rt_de,
-    bytes: 640,
-    unwind: 140,
-    stubs: [(crate::mix, stub_mix), (crate::inv_mix, stub_inv_mix)],
-    prop: |inp| { t256::rt_de(inp) }
-}
-//@ harness name=tf256_rt_bytes prop=C01,C20 tier=quick bits=5120 stub=1 est=60 desc="W: Threefish256 decrypt_block(encrypt_block(b)) == b through the byte entry points, arbitrary subkey table, all blocks"
+//@ harness name=tf256_rt_bytes prop=C01,C20 tier=quick bits=5120 stub=1 est=120 desc="W: Threefish256 decrypt_block(encrypt_block(b)) == b through the byte entry points, ARBITRARY subkey table, all blocks"
 verif_harness! {
     name: tf256_rt_bytes,
     bytes: 640,
     unwind: 140,
-    stubs: [(crate::mix, stub_mix), (crate::inv_mix, stub_inv_mix)],
+    stubs: [(crate::mix, t256::stub_mix), (crate::inv_mix, t256::stub_inv_mix)],
     prop: |inp| { t256::rt_bytes(inp) }
 }
 
-// ------------------------------------------------------------------ Threefish-512 (sk: 1216 bytes, block 64 bytes)
+// ------------------------------------------------------------------ Threefish-512 (subkey table 1216 bytes, block 64 bytes)
 
-//@ harness name=tf512_ks prop=C10,C20 tier=quick bits=640 est=60 desc="D: Threefish512 new_with_tweak_u64 == Skein 1.3 key schedule; new_with_tweak(bytes) == same on LE words; KeyInit::new == zero tweak; all keys and tweaks"
+//@ harness name=tf512_ks prop=C10,C20 tier=quick bits=640 est=60 desc="D: Threefish512 new_with_tweak_u64 == Skein 1.3 key schedule (C240, t2 = t0^t1, 19 subkeys); new_with_tweak(bytes) == same on LE words; KeyInit::new == zero tweak; all keys and tweaks"
 verif_harness! {
     name: tf512_ks,
     bytes: 80,
     unwind: 140,
     prop: |inp| { t512::ks(inp) }
 }
-//@ harness name=tf512_enc prop=C10,C20 tier=quick bits=10240 stub=1 est=60 desc="W: Threefish512::encrypt_block_u64 == oracle on an arbitrary subkey table, all blocks; mix uninterpreted"
+//@ harness name=tf512_enc prop=C10,C20 tier=quick bits=10240 stub=1 est=120 desc="W: Threefish512::encrypt_block_u64 == oracle (72 rounds, subkey every 4 rounds, permutation pi, rotation table) on an ARBITRARY subkey table, all blocks; mix uninterpreted"
 verif_harness! {
     name: tf512_enc,
     bytes: 1280,
     unwind: 140,
-    stubs: [(crate::mix, stub_mix), (crate::inv_mix, stub_inv_mix)],
+    stubs: [(crate::mix, t512::stub_mix), (crate::inv_mix, t512::stub_inv_mix)],
     prop: |inp| { t512::enc(inp) }
 }
-//@ harness name=tf512_dec prop=C10,C20 tier=quick bits=10240 stub=1 est=60 desc="W: Threefish512::decrypt_block_u64 == oracle decryption on an arbitrary subkey table, all blocks; inv_mix uninterpreted"
+//@ harness name=tf512_dec prop=C10,C20 tier=quick bits=10240 stub=1 est=120 desc="W: Threefish512::decrypt_block_u64 == oracle decryption on an ARBITRARY subkey table, all blocks; inv_mix uninterpreted"
 verif_harness! {
     name: tf512_dec,
     bytes: 1280,
     unwind: 140,
-    stubs: [(crate::mix, stub_mix), (crate::inv_mix, stub_inv_mix)],
+    stubs: [(crate::mix, t512::stub_mix), (crate::inv_mix, t512::stub_inv_mix)],
     prop: |inp| { t512::dec(inp) }
 }
-//@ harness name=tf512_bytes_enc prop=C10,C20 tier=quick bits=10240 stub=1 est=60 desc="W: Threefish512 encrypt_block (bytes) == LE(encrypt_block_u64(LE words)), arbitrary subkey table, all blocks"
+//@ harness name=tf512_bytes prop=C10,C20 tier=quick bits=10240 stub=1 est=120 desc="W: Threefish512 encrypt_block / decrypt_block (byte entry points) == LE(encrypt_block_u64 / decrypt_block_u64(LE words)), ARBITRARY subkey table, all blocks"
 verif_harness! {
-    name: tf512_bytes_enc,
+    name: tf512_bytes,
     bytes: 1280,
     unwind: 140,
-    stubs: [(crate::mix, stub_mix), (crate::inv_mix, stub_inv_mix)],
-    prop: |inp| { t512::bytes_enc(inp) }
+    stubs: [(crate::mix, t512::stub_mix), (crate::inv_mix, t512::stub_inv_mix)],
+    prop: |inp| { t512::bytes(inp) }
 }
-//@ harness name=tf512_bytes_dec prop=C10,C20 tier=quick bits=10240 stub=1 est=60 desc="W: Threefish512 decrypt_block (bytes) == LE(decrypt_block_u64(LE words)), arbitrary subkey table, all blocks"
+//@ harness name=tf512_rt prop=C01,C20 tier=quick bits=10240 stub=1 est=120 desc="W: Threefish512 decrypt_block_u64(encrypt_block_u64(b)) == b and encrypt_block_u64(decrypt_block_u64(b)) == b on an ARBITRARY subkey table (any key, any tweak), all blocks; mix / inv_mix uninterpreted mutual inverses (leaf lemma)"
 verif_harness! {
-    name: tf512_bytes_dec,
+    name: tf512_rt,
     bytes: 1280,
     unwind: 140,
-    stubs: [(crate::mix, stub_mix), (crate::inv_mix, stub_inv_mix)],
-    prop: |inp| { t512::bytes_dec(inp) }
+    stubs: [(crate::mix, t512::stub_mix), (crate::inv_mix, t512::stub_inv_mix)],
+    prop: |inp| { t512::rt(inp) }
 }
-//@ harness name=tf512_rt_ed prop=C01,C20 tier=quick bits=10240 stub=1 est=60 desc="W: Threefish512 decrypt_block_u64(encrypt_block_u64(b)) == b on an arbitrary subkey table, all blocks"
-verif_harness! {
-    name: tf512_rt_ed,
-    bytes: 1280,
-    unwind: 140,
-    stubs: [(crate::mix, stub_mix), (crate::inv_mix, stub_inv_mix)],
-    prop: |inp| { t512::rt_ed(inp) }
-}
-//@ harness name=tf512_rt_de prop=C01,C20 tier=quick bits=10240 stub=1 est=60 desc="W: Threefish512 encrypt_block_u64(decrypt_block_u64(b)) == b on an arbitrary subkey table, all blocks"
-verif_harness! {
-    name: tf512_rt_de,
-    bytes: 1280,
-    unwind: 140,
-    stubs: [(crate::mix, stub_mix), (crate::inv_mix, stub_inv_mix)],
-    prop: |inp| { t512::rt_de(inp) }
-}
-//@ harness name=tf512_rt_bytes prop=C01,C20 tier=quick bits=10240 stub=1 est=60 desc="W: Threefish512 decrypt_block(encrypt_block(b)) == b through the byte entry points, arbitrary subkey table, all blocks"
+//@ harness name=tf512_rt_bytes prop=C01,C20 tier=quick bits=10240 stub=1 est=120 desc="W: Threefish512 decrypt_block(encrypt_block(b)) == b through the byte entry points, ARBITRARY subkey table, all blocks"
 verif_harness! {
     name: tf512_rt_bytes,
     bytes: 1280,
     unwind: 140,
-    stubs: [(crate::mix, stub_mix), (crate::inv_mix, stub_inv_mix)],
+    stubs: [(crate::mix, t512::stub_mix), (crate::inv_mix, t512::stub_inv_mix)],
     prop: |inp| { t512::rt_bytes(inp) }
 }
 
-// ------------------------------------------------------------------ Threefish-1024 (sk: 2688 bytes, block 128 bytes)
+// ------------------------------------------------------------------ Threefish-1024 (subkey table 2688 bytes, block 128 bytes)
 
-//@ harness name=tf1024_ks prop=C10,C20 tier=quick bits=1152 est=60 desc="D: Threefish1024 new_with_tweak_u64 == Skein 1.3 key schedule (21 subkeys); new_with_tweak(bytes) == same on LE words; KeyInit::new == zero tweak; all keys and tweaks"
+//@ harness name=tf1024_ks prop=C10,C20 tier=quick bits=1152 est=60 desc="D: Threefish1024 new_with_tweak_u64 == Skein 1.3 key schedule (C240, t2 = t0^t1, 21 subkeys); new_with_tweak(bytes) == same on LE words; KeyInit::new == zero tweak; all keys and tweaks"
 verif_harness! {
     name: tf1024_ks,
     bytes: 144,
     unwind: 140,
     prop: |inp| { t1024::ks(inp) }
 }
-//@ harness name=tf1024_enc prop=C10,C20 tier=quick bits=22528 stub=1 est=60 desc="W: Threefish1024::encrypt_block_u64 == oracle (80 rounds) on an arbitrary subkey table, all blocks; mix uninterpreted"
+//@ harness name=tf1024_enc prop=C10,C20 tier=quick bits=22528 stub=1 est=120 desc="W: Threefish1024::encrypt_block_u64 == oracle (80 rounds, subkey every 4 rounds, permutation pi, rotation table) on an ARBITRARY subkey table, all blocks; mix uninterpreted"
 verif_harness! {
     name: tf1024_enc,
     bytes: 2816,
     unwind: 140,
-    stubs: [(crate::mix, stub_mix), (crate::inv_mix, stub_inv_mix)],
+    stubs: [(crate::mix, t1024::stub_mix), (crate::inv_mix, t1024::stub_inv_mix)],
     prop: |inp| { t1024::enc(inp) }
 }
-//@ harness name=tf1024_dec prop=C10,C20 tier=quick bits=22528 stub=1 est=60 desc="W: Threefish1024::decrypt_block_u64 == oracle decryption on an arbitrary subkey table, all blocks; inv_mix uninterpreted"
+//@ harness name=tf1024_dec prop=C10,C20 tier=quick bits=22528 stub=1 est=120 desc="W: Threefish1024::decrypt_block_u64 == oracle decryption on an ARBITRARY subkey table, all blocks; inv_mix uninterpreted"
 verif_harness! {
     name: tf1024_dec,
     bytes: 2816,
     unwind: 140,
-    stubs: [(crate::mix, stub_mix), (crate::inv_mix, stub_inv_mix)],
+    stubs: [(crate::mix, t1024::stub_mix), (crate::inv_mix, t1024::stub_inv_mix)],
     prop: |inp| { t1024::dec(inp) }
 }
-//@ harness name=tf1024_bytes_enc prop=C10,C20 tier=quick bits=22528 stub=1 est=60 desc="W: Threefish1024 encrypt_block (bytes) == LE(encrypt_block_u64(LE words)), arbitrary subkey table, all blocks"
+//@ harness name=tf1024_bytes prop=C10,C20 tier=quick bits=22528 stub=1 est=120 desc="W: Threefish1024 encrypt_block / decrypt_block (byte entry points) == LE(encrypt_block_u64 / decrypt_block_u64(LE words)), ARBITRARY subkey table, all blocks"
 verif_harness! {
-    name: tf1024_bytes_enc,
+    name: tf1024_bytes,
     bytes: 2816,
     unwind: 140,
-    stubs: [(crate::mix, stub_mix), (crate::inv_mix, stub_inv_mix)],
-    prop: |inp| { t1024::bytes_enc(inp) }
+    stubs: [(crate::mix, t1024::stub_mix), (crate::inv_mix, t1024::stub_inv_mix)],
+    prop: |inp| { t1024::bytes(inp) }
 }
-//@ harness name=tf1024_bytes_dec prop=C10,C20 tier=quick bits=22528 stub=1 est=60 desc="W: Threefish1024 decrypt_block (bytes) == LE(decrypt_block_u64(LE words)), arbitrary subkey table, all blocks"
+//@ harness name=tf1024_rt prop=C01,C20 tier=quick bits=22528 stub=1 est=120 desc="W: Threefish1024 decrypt_block_u64(encrypt_block_u64(b)) == b and encrypt_block_u64(decrypt_block_u64(b)) == b on an ARBITRARY subkey table (any key, any tweak), all blocks; mix / inv_mix uninterpreted mutual inverses (leaf lemma)"
 verif_harness! {
-    name: tf1024_bytes_dec,
+    name: tf1024_rt,
     bytes: 2816,
     unwind: 140,
-    stubs: [(crate::mix, stub_mix), (crate::inv_mix, stub_inv_mix)],
-    prop: |inp| { t1024::bytes_dec(inp) }
+    stubs: [(crate::mix, t1024::stub_mix), (crate::inv_mix, t1024::stub_inv_mix)],
+    prop: |inp| { t1024::rt(inp) }
 }
-//@ harness name=tf1024_rt_ed prop=C01,C20 tier=quick bits=22528 stub=1 est=60 desc="W: Threefish1024 decrypt_block_u64(encrypt_block_u64(b)) == b on an arbitrary subkey table, all blocks"
-verif_harness! {
-    name: tf1024_rt_ed,
-    bytes: 2816,
-    unwind: 140,
-    stubs: [(crate::mix, stub_mix), (crate::inv_mix, stub_inv_mix)],
-    prop: |inp| { t1024::rt_ed(inp) }
-}
-//@ harness name=tf1024_rt_de prop=C01,C20 tier=quick bits=22528 stub=1 est=60 desc="W: Threefish1024 encrypt_block_u64(decrypt_block_u64(b)) == b on an arbitrary subkey table, all blocks"
-verif_harness! {
-    name: tf1024_rt_de,
-    bytes: 2816,
-    unwind: 140,
-    stubs: [(crate::mix, stub_mix), (crate::inv_mix, stub_inv_mix)],
-    prop: |inp| { t1024::rt_de(inp) }
-}
-//@ harness name=tf1024_rt_bytes prop=C01,C20 tier=quick bits=22528 stub=1 est=60 desc="W: Threefish1024 decrypt_block(encrypt_block(b)) == b through the byte entry points, arbitrary subkey table, all blocks"
+//@ harness name=tf1024_rt_bytes prop=C01,C20 tier=quick bits=22528 stub=1 est=120 desc="W: Threefish1024 decrypt_block(encrypt_block(b)) == b through the byte entry points, ARBITRARY subkey table, all blocks"
 verif_harness! {
     name: tf1024_rt_bytes,
     bytes: 2816,
     unwind: 140,
-    stubs: [(crate::mix, stub_mix), (crate::inv_mix, stub_inv_mix)],
+    stubs: [(crate::mix, t1024::stub_mix), (crate::inv_mix, t1024::stub_inv_mix)],
     prop: |inp| { t1024::rt_bytes(inp) }
 }
+
